@@ -76,8 +76,10 @@ def uncentre(freq_centred):
 
 
 def to_nyx(a, order):
-    """array in the declared order -> (n, y, x)"""
+    """array in the declared order -> (n, y, x); a single 2-D image ([x, y] resp. [y, x]) counts as a one-image stack"""
     a = np.asarray(a)
+    if a.ndim == 2:
+        return (a.T if order == "xyz" else a)[None]
     return a.transpose(2, 1, 0) if order == "xyz" else a
 
 
